@@ -39,7 +39,7 @@ impl Req {
     }
 }
 
-pub const CTX_NAMES: [&str; 6] = ["only-this-leaf", "sibling-set", "batch-256-first", "neighbour-set-then-deleted", "proved-then-two-leaves-removed-in-one-batch", "proved-then-range-written"];
+pub const CTX_NAMES: [&str; 7] = ["only-this-leaf", "sibling-set", "batch-256-first", "neighbour-set-then-deleted", "proved-then-two-leaves-removed-in-one-batch", "proved-then-range-written", "sibling-chosen-so-that-the-root-has-a-zero-top-byte"];
 
 /// positions of the two extra leaves of contexts 4 and 5 (below 256: batch removal indices are bytes)
 pub fn extra_positions(r: &Req) -> (u64, u64) {
@@ -106,6 +106,22 @@ pub fn setup_tree(rln: &mut RLN, r: &Req) -> Result<Setup, String> {
             for (k, v) in leaves.iter().enumerate() {
                 model.set(k as u64, v);
             }
+        }
+        6 => {
+            // search (on the ideal tree) for a sibling value that makes the root smaller than 2^248
+            let mut k = 0u64;
+            let v = loop {
+                let cand = big(9_000_000 + k);
+                let mut t = IdealTree::new(DEPTH);
+                t.set(nb, &cand);
+                t.set(r.index, &rate);
+                if t.root() < pow2(248) || k > 2000 {
+                    break cand;
+                }
+                k += 1;
+            };
+            e(rln.set_leaf(nb as usize, rd(codec::fr(&v))))?;
+            model.set(nb, &v);
         }
         4 | 5 => {
             let (a, b) = extra_positions(r);
